@@ -303,7 +303,7 @@ def parallel_cases(seed, count, max_side, tag, kinds=None, big=False):
                 for d in ("breadth", "any"):
                     kt = 1 if t == 1 else rng.choice([2, 3, 4, 7, t])
                     steps.append(dict(op="kernel", g=gid, dir=d, thr=kt, minblock=rng.choice([0, 0, 1, 2, 5]),
-                                      minlevel=rng.choice([0, 0, 1, 3, 6])))
+                                      minlevel=rng.choice([0, 0, 1, 3, 6]), init=rng.choice([0, 1])))
                 if t == 1:
                     steps.append(dict(op="kernel", g=gid, dir="depth", thr=1))
                 elif rng.random() < 0.2:
